@@ -163,6 +163,11 @@ func oracleC07(w *World, c *Case) {
 	oracleC03(w, c)
 	by := w.ReqsByTag()
 	cl := w.Clients[0]
+	if c.Aux.(*c03Aux).Scripts[0].BadSettings {
+		// the session ends in a connection error: what was in flight need not be answered
+		w.Probe("session_ended_by_rejected_settings")
+		return
+	}
 	for _, rq := range c.Aux.(*c03Aux).Scripts[0].Reqs {
 		st := cl.Streams[rq.Stream]
 		if len(by[rq.Spec.Tag]) != 1 || st == nil || !st.Ended {
@@ -177,7 +182,7 @@ func oracleC07(w *World, c *Case) {
 
 func init() {
 	register(&CheckDef{ID: "C07", Level: "exploration", Engine: "A", Draw: drawC07,
-		Rule: "one HTTP/2 connection, 2-8 concurrently open streams whose handlers are parked by a yielding header injector placed before the real HTTP/2 injector while the controller delivers further SETTINGS / WINDOW_UPDATE / PRIORITY / HEADERS frames (one TLS write per frame) and releases handlers in any order; snapshot oracle: each request's fingerprint equals the fingerprint of one prefix of the frame history between its own HEADERS and its forwarding (single sequential writer, so linearizability of the reads reduces to interval membership); every request of the session is forwarded exactly once and answered completely (a lock cycle between capture and Marshal shows up here: lock waits count as blocked in the worker's runtime). Race mode (-race build): the same sessions coalesced into one TLS write with no fence, so that capture and Marshal fall into one quantum where the race detector sees them. Non-trivial: >= 2 requests reached the back-end. Distinct: distinct controller action-label sequences."})
+		Rule: "one HTTP/2 connection, 2-8 concurrently open streams whose handlers are parked by a yielding header injector placed before the real HTTP/2 injector while the controller delivers further SETTINGS / WINDOW_UPDATE / PRIORITY / HEADERS frames (one TLS write per frame; 15%: the last frame is a SETTINGS frame with valid entries around one the server rejects, so that parked requests are forwarded during the GOAWAY grace period) and releases handlers in any order; snapshot oracle: each request's fingerprint equals the fingerprint of one prefix of the frame history between its own HEADERS and its forwarding (single sequential writer, so linearizability of the reads reduces to interval membership); every request of the session is forwarded exactly once and answered completely (a lock cycle between capture and Marshal shows up here: lock waits count as blocked in the worker's runtime). Race mode (-race build): the same sessions coalesced into one TLS write with no fence, so that capture and Marshal fall into one quantum where the race detector sees them. Non-trivial: >= 2 requests reached the back-end. Distinct: distinct controller action-label sequences."})
 }
 
 func drawC07(t *rapid.T) *Case {
@@ -185,7 +190,7 @@ func drawC07(t *rapid.T) *Case {
 	race := raceMode()
 	aux := &c03Aux{Scripts: map[int]*H2Script{}}
 	hello := DrawHello(t, HelloOpts{Proto: "h2"})
-	sc := DrawH2Script(t, H2GenOpts{ClientID: 0, MaxReqs: 8, Bodies: false, ExtraMax: 3, TailFrames: true, OneGroupPerFrame: !race})
+	sc := DrawH2Script(t, H2GenOpts{ClientID: 0, MaxReqs: 8, Bodies: false, ExtraMax: 3, TailFrames: true, BadSettingsTail: !race, OneGroupPerFrame: !race})
 	if race {
 		// coalesce everything into one write
 		var all []Frame
